@@ -1115,6 +1115,52 @@ NON_NETWORK = ['data:', 'data:,x', 'DATA:text/plain,hello', 'Data:;base64,AAAA',
 WS = ['', '', ' ', '  ', '\t', '\n', '\u00a0', '\u3000', ' \r\n', '\x1c', '\u2028']
 
 
+def _confusables():
+    """non-ASCII characters that some case-insensitive comparison maps to an ASCII letter: str.lower, str.upper().lower(),
+    casefold, NFKC, re.IGNORECASE (U+017F long s, U+212A Kelvin, U+0130, U+0131, full-width letters, U+FB06 …)"""
+    import unicodedata
+    out = {}
+    for cp in range(0x80, 0x30000):
+        ch = chr(cp)
+        forms = {ch.lower(), ch.upper().lower(), ch.casefold(), unicodedata.normalize('NFKC', ch).lower(),
+                 unicodedata.normalize('NFKD', ch).lower()}
+        for f in forms:
+            if f.isascii() and f.isalpha() and 1 <= len(f) <= 2:
+                out.setdefault(f, []).append(ch)
+    for letter in 'abcdefghijklmnopqrstuvwxyz':
+        for ch in ('\u017f', '\u212a'):
+            if re.fullmatch(letter, ch, re.IGNORECASE):
+                out.setdefault(letter, []).append(ch)
+    return {k: sorted(set(v)) for k, v in out.items()}
+
+
+CONFUSABLES = _confusables()
+
+
+def confusable_scheme_cases(rng, n):
+    """network schemes spelled with look-alike letters, no explicit port, every tail shape"""
+    out = []
+    fixed = ['http\u017f', 'w\u017f', 'w\u017f\u017f', 'ws\u017f', 'HTTP\u017f', '\uff48ttp', 'h\uff54tp', '\uff46\uff54\uff50', 'gop\u210eer', 'http\u017F',
+             'ht\ufb06p', '\u0131http', 'h\u0130ttp', 'htt\u1d56', 'f\u0167p', 'w\ufb06', 'https\u0307', '\u212aws', 'ftp\u200d']
+    tails = ['://example.com/', '://example.com', '://h/p?q#f', ':', '://', ':example.com', '://u:p@h/', '://[::1]/', '://h.x:', ':/x']
+    for sch in fixed:
+        for t in tails:
+            for ds in ('http', None):
+                out.append(Case(sch + t, ds, 'utf-8', 'confusable-scheme'))
+    for _ in range(n):
+        base = rng.choice(list(NET))
+        chars = list(base)
+        for _k in range(rng.choice([1, 1, 2])):
+            pos = rng.randrange(len(chars))
+            cands = CONFUSABLES.get(chars[pos].lower()) or CONFUSABLES.get(base[pos:pos + 2]) or []
+            if cands:
+                special = [c for c in cands if c in '\u017f\u212a\u0130\u0131']
+                chars[pos] = rng.choice(special) if special and rng.random() < 0.5 else rng.choice(cands)
+        sch = ''.join(c.upper() if (c.isascii() and rng.random() < 0.3) else c for c in chars)
+        out.append(Case(rng.choice(WS) + sch + rng.choice(tails), *pick_config(rng), 'confusable-scheme'))
+    return out
+
+
 def gen_non_network(rng):
     """texts without a network scheme (data:, javascript:, mailto: …) in any case, with surrounding white space"""
     t = rng.choice(NON_NETWORK)
@@ -1159,6 +1205,8 @@ def gen_malformed(rng):
     r = rng.random()
     if r < 0.04:
         return gen_non_network(rng)
+    if r < 0.06:
+        return confusable_scheme_cases(rng, 1)[-1].url
     if r < 0.05:
         return rng.choice(['http://', 'https://u@', '//', '']) + long_host(rng) + rng.choice(['', '/', '/p?q'])
     if r < 0.35:
